@@ -44,7 +44,19 @@ FALLBACK_DEFS = [d for d in WASI_DEFS if not d.startswith('-DHAS_SYSUIO') and no
     ['-DHAS_SYSUIO=0', '-DHAS_STRNDUP=0']
 
 
+# 'be': the same agent with the runtime's big-endian paths forced (-DWASM_ENDIAN=1, C19): every structured value wasi.c moves between
+# host and guest memory goes through the swapping accessors, so on this little-endian host the guest memory holds the big-endian image of
+# every 16/32/64-bit field (the mirror argument of C19) while byte buffers (file data, names) are untouched.  The executor packs and
+# unpacks guest structures with Agent.E as byte order; FORCE_VARIANT makes every agent of the process such an agent (set by C19's jobs).
+FORCE_VARIANT = None
+
+
 def agent_binary(variant='default'):
+    if variant == 'be':
+        return cexec.build_unit('wasiagent.c', 'wasiagent-be', AGENT_CMD + WASI_DEFS + ['-DWASM_ENDIAN=1'],
+                                extra_args=[os.path.join(cexec.REPO, 'wasi', 'wasi.c'), os.path.join(cexec.REPO, 'futex', 'futex.c'),
+                                            os.path.join(cexec.REPO, 'futex', 'list.c'), os.path.join(cexec.REPO, 'futex', 'map.c')],
+                                libs=['-lpthread', '-lm'])
     if variant == 'fallback':
         return cexec.build_unit('wasiagent.c', 'wasiagent-fallback', AGENT_CMD + FALLBACK_DEFS,
                                 extra_args=[os.path.join(cexec.REPO, 'wasi', 'wasi.c'), os.path.join(cexec.REPO, 'futex', 'futex.c'),
@@ -60,7 +72,10 @@ class Agent(object):
     """one wasiagent process; stdin/stdout/stderr of the process are the given files (the 'standard streams' under test)"""
 
     def __init__(self, workdir, stdin_path=None, stdout_path=None, stderr_path=None, pages=64, cwd=None, variant='default'):
+        variant = FORCE_VARIANT or variant
         exe = agent_binary(variant)
+        self.variant = variant
+        self.E = '>' if variant == 'be' else '<'      # byte order of structured fields in guest memory
         self.workdir = workdir
         c_r, p_w = os.pipe()       # parent -> child
         p_r, c_w = os.pipe()       # child -> parent
@@ -127,13 +142,26 @@ class Agent(object):
         return bytes.fromhex(r[4:])
 
     def peek_u32(self, addr):
-        return struct.unpack('<I', self.peek(addr, 4))[0]
+        return struct.unpack(self.E + 'I', self.peek(addr, 4))[0]
 
     def peek_u64(self, addr):
-        return struct.unpack('<Q', self.peek(addr, 8))[0]
+        return struct.unpack(self.E + 'Q', self.peek(addr, 8))[0]
 
     def now(self, clock):
         return int(self._send('now %d' % clock).split()[1])
+
+    def par(self, scripts):
+        """scripts: one list of (fn, unstable, args) per thread; the agent runs them in threads started together and returns the
+        return codes per thread"""
+        parts = ['par %d' % len(scripts)]
+        for sc in scripts:
+            parts.append('T %d' % len(sc))
+            for fn, unstable, args in sc:
+                parts.append('%s %d %d %s' % (fn, 1 if unstable else 0, len(args), ' '.join(str(int(a)) for a in args)))
+        r = self._send(' '.join(parts))
+        if not r.startswith('par'):
+            raise AgentDied('agent protocol error: %r' % r[:200])
+        return [[int(x) for x in t.split()] for t in r[3:].split('/')]
 
     def res(self, clock):
         """clock_getres of the host clock behind WASI clock id `clock`, read in the agent process (ns)"""
@@ -178,7 +206,7 @@ class Agent(object):
                 n = args[ci]
                 if 0 < n <= 64:
                     raw = self.peek(args[ai], 8 * n)
-                    ents = [struct.unpack('<II', raw[8 * i:8 * i + 8]) for i in range(n)]
+                    ents = [struct.unpack(self.E + 'II', raw[8 * i:8 * i + 8]) for i in range(n)]
                     for i in range(n - 1, -1, -1):
                         if 0 < ents[i][1] <= 65536 and ents[i][0] + ents[i][1] <= memsize - 0x20000:
                             cands.append(('iovbuf', ai, i, ents[i], direction))
@@ -215,11 +243,11 @@ class Agent(object):
             self.poke(top, self.peek(bptr, blen))
         else:
             self.fill(top, blen)
-        self.poke(args[ai] + 8 * i, struct.pack('<I', top))
+        self.poke(args[ai] + 8 * i, struct.pack(self.E + 'I', top))
         try:
             r = self._call(fn, unstable, *args)
         finally:
-            self.poke(args[ai] + 8 * i, struct.pack('<I', bptr))
+            self.poke(args[ai] + 8 * i, struct.pack(self.E + 'I', bptr))
         if 'o' in direction:
             self.poke(bptr, self.peek(top, blen))
         return r
@@ -319,7 +347,7 @@ def put_iovs(agent, bufs, base=DATA, gap=16):
     for b in bufs:
         ln = b if isinstance(b, int) else len(b)
         out.append((ptr, ln))
-        arr += struct.pack('<II', ptr, ln)
+        arr += struct.pack(agent.E + 'II', ptr, ln)
         if not isinstance(b, int):
             agent.poke(ptr, b)
         ptr += ln + gap
